@@ -133,6 +133,34 @@ theorem C18_beyond_window_ignored (s : St) (ad g inner iid : Nat) (v : Bytes) (h
   injection ha with _ e2
   omega
 
+/-- an accepted notification for an instance id the cached database does not know calls nobody - and everything
+    else is observed as it is; since the state number advanced (the step itself is the same), the replay
+    protection of `C18_no_replay` covers it too -/
+theorem C18_unknown_iid_silent (unknown : List Nat) (o : Out) :
+    (∀ iid value, observe unknown o = .delivered iid value → o = .delivered iid value ∧ iid ∉ unknown) ∧
+    (∀ iid value, o = .delivered iid value → iid ∈ unknown → observe unknown o = .silent) ∧
+    ((∀ iid value, o ≠ .delivered iid value) → observe unknown o = o) := by
+  refine ⟨?_, ?_, ?_⟩
+  · intro iid value h
+    cases o with
+    | delivered i v =>
+      simp only [observe] at h
+      split at h
+      · cases h
+      · rename_i hn; cases h; exact ⟨rfl, hn⟩
+    | ignored => simp [observe] at h
+    | fallback => simp [observe] at h
+    | notRouted => simp [observe] at h
+    | noDelivery => simp [observe] at h
+    | silent => simp [observe] at h
+  · intro iid value h hm
+    subst h
+    simp [observe, hm]
+  · intro h
+    cases o with
+    | delivered i v => exact absurd rfl (h i v)
+    | _ => rfl
+
 example : run ⟨7, 10, true⟩ [.genuine 7 11 11 5 [1], .genuine 7 11 11 5 [1], .genuine 7 16 16 5 [2], .genuine 7 12 12 5 [3],
     .genuine 7 16 16 5 [2], .genuine 7 116 116 5 [4], .genuine 7 115 115 5 [4], .foreign 7, .genuine 7 117 118 5 [9], .genuine 8 116 116 5 [1]]
     = [.delivered 5 [1], .ignored, .delivered 5 [2], .fallback, .ignored, .fallback, .delivered 5 [4], .fallback, .ignored, .notRouted] := by
